@@ -8,7 +8,7 @@ import implrun
 import vlib
 from safeds_stubgen.api_analyzer._types import AbstractType
 
-STYLES = ["numpydoc", "google", "rest"]
+STYLES = ["numpydoc", "google", "numpydoc", "rest", "numpydoc"]
 PW = "Different type hint and docstring types for '"
 RW = "Different type hint and docstring types for the result of '"
 
@@ -81,12 +81,12 @@ def dval(v):
 def run(ctx):
     rng = random.Random(ctx["seed"] + 14)
     tier = ctx["tier"]
-    npk = 9 if tier == "quick" else 60
+    npk = 10 if tier == "quick" else 60
     base = implrun.scratch_dir("c14")
     jobs, meta = [], []
     import findings
     for i in range(npk):
-        style = STYLES[i % 3]
+        style = STYLES[i % 5]
         if i == 0:
             p, _ = findings.result_warn_always()   # the recorded witness runs first
             style = p.style
@@ -104,6 +104,7 @@ def run(ctx):
     implrun.cleanup()
 
     violations, disagreements = [], []
+    code_results_all = {}
     cases, cmeta = [], []
     n_both = n_conflict = n_decl = 0
     samples = []
@@ -116,6 +117,8 @@ def run(ctx):
         base_a = group[0][1]
         code_params = {x["id"]: x for x in base_a["api"]["parameters"]}
         code_results = {f["id"]: [r for r in base_a["api"]["results"] if r["id"] in f["results"]] for f in base_a["api"]["functions"]}
+        for f_id, rs_ in code_results.items():
+            code_results_all[(p.name, f_id)] = rs_
         by = {(m[4], m[5]): a for m, a in group[1:]}
         # ---- warnings never alter output ----
         for tsp in ("code", "docstring"):
@@ -196,11 +199,27 @@ def run(ctx):
             got_r = [[results[i_]["id"], results[i_]["name"],
                       vlib.canon_jv_tree(vlib.jv_tree(results[i_]["type"])) if results[i_]["type"] is not None else None] for i_ in fj["results"]]
             mod_r = [[i_, n_, vlib.canon_jv_tree(t[0]) if t else None] for i_, n_, t in m[2]]
-            if got_r != mod_r:
-                disagreements.append({"case": [fid, tsp, tsw], "what": "results after reconciliation", "impl": got_r, "model": mod_r})
+            # result names come from _parse_results (docstring names), which the baseline run does not see: compare the types
+            if [x[2] for x in got_r] != [x[2] for x in mod_r]:
+                disagreements.append({"case": [fid, tsp, tsw], "what": "result types after reconciliation",
+                                      "impl": [x[2] for x in got_r], "model": [x[2] for x in mod_r]})
             got_rw = sum(1 for lv, msg in a["log"] if msg == f"{RW}{fid}'.")
             if got_rw != int(m[3]):
                 disagreements.append({"case": [fid, tsp, tsw], "what": "result warnings", "impl": got_rw, "model": int(m[3])})
+            # the property: per result position, the docstring type under DOCSTRING when there is one, the hint otherwise
+            # (a docstring entry can only be attributed to a position when the docstring lists as many results as the hint)
+            rd_all = a.get("result_docs", {}).get(fid, [])
+            base_rs = code_results_all.get((p.name, fid), [])
+            if base_rs and len(rd_all) == len(base_rs) and len(got_r) == len(base_rs):
+                for k in range(len(base_rs)):
+                    code_t = base_rs[k]["type"]
+                    doc_t = sx_to_dict(rd_all[k][0][0]) if rd_all[k][0] else None
+                    want = (doc_t if doc_t is not None else code_t) if tsp == "docstring" else (code_t if code_t is not None else doc_t)
+                    have = got_r[k][2]
+                    if (want is None) != (have is None) or (want is not None and vlib.canon_jv_tree(vlib.jv_tree(want)) != have):
+                        violations.append({"what": f"result {k} of {fid} under -tsp {tsp}: type {have}, hint {code_t}, docstring {doc_t}",
+                                           "package": p.name, "files": files if len(violations) < 3 else None, "finding": None})
+                        break
             # the property: a result warning only when both sources give different types
             if tsw == "warn" and tsp == "code" and got_rw:
                 rd = a.get("result_docs", {}).get(fid, [])
